@@ -41,6 +41,8 @@ def main():
                 exp = m.group(1).strip()
         if not exp and os.path.exists(os.path.join(os.path.dirname(pf), 'meta.json')):
             exp = json.load(open(os.path.join(os.path.dirname(pf), 'meta.json'))).get('property', '')
+        if not exp and '/seeded/' in os.path.abspath(pf):
+            exp = os.path.basename(os.path.dirname(os.path.abspath(pf))).split('_')[0]
         scratch = tempfile.mkdtemp(prefix='verif_selftest_')
         try:
             subprocess.run(['rsync', '-a', '--exclude', 'target', '--exclude', '.git', '/repo/', scratch + '/'], check=True)
